@@ -464,7 +464,7 @@ impl Value {
                         }
                     } else if y.is_nan() {
                         Ordering::Greater
-                    } else if (*x - *y).abs() < f64::EPSILON {
+                    } else if *x == *y {
                         Ordering::Equal
                     } else if *x < *y {
                         Ordering::Less
